@@ -211,11 +211,10 @@ func (p *Parser) number() (Number, error) {
 
 // More checks if the parser has more tokens to read.
 func (p *Parser) More() bool {
-	if _, err := p.next(); err != nil {
-		return false
-	}
+	_, err := p.next()
 	p.backup()
-	return true
+	// The end of the text in the middle of a token (an open quote) is not the end of the clauses: there's more, and it's broken.
+	return err == nil || p.lexer.buf.Len() > p.lexer.offset
 }
 
 type operatorClass uint8
